@@ -58,7 +58,10 @@ RULE = ("random histories (1-24 ops) of add/addN/remove(wildcards)/set/+=/-=/+ -
         "a further stream calls the Memory API directly (store.add, store.remove(pattern, graph | None), add_graph, remove_graph) "
         "interleaved with Graph calls; after every op len / list(g) / 7 wild-carded shapes / membership per graph and the store API "
         "(store.triples(pattern, None | graph) with the graphs reported per triple, len(store), store.contexts(), store.contexts(t)) "
-        "are compared with the model and with a set-of-quads + set-of-graph-keys oracle. "
+        "and Graph.triples_choices (a list of 0-3 terms in one rotating position) "
+        "are compared with the model (the compiled NESTED-dictionary model; pattern observations = its generator machine run to "
+        "exhaustion) and with a set-of-quads + set-of-graph-keys oracle; every real generator is also replayed next() by next() "
+        "on the concrete generator machine (statistics gen_exact / gen_diverge). "
         "non-trivial = some remove deleted a triple and (mem) some triple was in two graphs at once; distinct = distinct op lists")
 ASSUMPTIONS = ["quoted statements (QuotedGraph / formula-aware add) are outside the property; quoted=False everywhere",
                "single thread; event dispatch of Store.add/remove has no subscribers",
@@ -66,7 +69,8 @@ ASSUMPTIONS = ["quoted statements (QuotedGraph / formula-aware add) are outside 
                "iteration-under-mutation safety on the default store only; `g -= g` on SimpleMemory raises RuntimeError)",
                "graph identifiers are truthy IdentifiedNodes (a falsy identifier is replaced by Graph.__init__; C02's ground)"]
 TRUSTED = ["harness/c01.py generators, set oracle and canonicalisation", "lean/RV/C01/Drive.lean line protocol",
-           "the nested-dict layout inside one index is abstracted to a finite set with lookup by bound positions"]
+           "a Python dict is an insertion-ordered association list; dictionaries referenced by a suspended generator are "
+           "never replaced (reference = lookup by path); the hash order of the set copied by the all-unbound fast path is not modelled"]
 
 TERMS = [Literal(""), Literal(0), Literal(False), URIRef(""), URIRef("http://e/x"), BNode("x"), Literal("x"),
          Literal("x", lang="en"), Literal("1"), Literal(1), Variable("x"), Literal(0.0)]
@@ -158,20 +162,41 @@ def gen_case(rng, tier, i):
         # predicates / objects with A's), are emptied again, …  The iteration must still yield A's triples only.
         writer = rng.random() < 0.4
         ga = rng.choice(G)
-        for _ in range(rng.randint(2, 8)):
+        # "deep" variant (round g): one subject with up to 3 predicates x 2 objects in the iterated graph, generators over
+        # the TWO-LEVEL shapes, and between single next() steps whole second-level groups are removed (emptying an inner
+        # dictionary whose key the suspended generator has already copied) and re-added under old and new keys
+        deep = rng.random() < 0.35
+        dts = []
+        if deep:
+            s0, dp, do = rng.choice(S), rng.sample(ids, 3), rng.sample(ids, 2)
+            dts = [[s0, p_, o_] for p_ in dp for o_ in do if rng.random() < 0.8] or [[s0, dp[0], do[0]]]
+            for t in dts:
+                if t not in pool:
+                    pool.append(t)
+                ops.append(["add", ga, rng.randint(0, 1)] + t)
+        for _ in range(rng.randint(0 if deep else 2, 3 if deep else 8)):
             ops.append(["add", ga if writer else rng.choice(G), rng.randint(0, 1)] + pick())
         first_g = ops[0][1]
         nit = rng.randint(1, 3)
         for k in range(nit):
-            t = pick()
-            m = rng.choice([1, 2, 3, 4, 4, 5, 6, 6, 7])
+            t = rng.choice(dts) if deep else pick()
+            m = rng.choice([6, 6, 2, 2, 5, 3]) if deep else rng.choice([1, 2, 3, 4, 4, 5, 6, 6, 7])
             gi = first_g if rng.random() < (0.9 if writer else 0.6) else rng.choice(G)
             ops.append(["iopen", k, gi, rng.randint(0, 1)] + [None if m & 1 else t[0], None if m & 2 else t[1], None if m & 4 else t[2]])
         for _ in range(rng.randint(3, 12)):
             ops.append(["istep", rng.randrange(nit), 1])
             for _ in range(rng.randint(0, 2)):
                 g, via, r = rng.choice(G), rng.randint(0, 1), rng.random()
-                if writer and r < 0.6:
+                if deep and r < 0.65:
+                    t = rng.choice(dts)
+                    if rng.random() < 0.6:   # remove a whole second-level group of the iterated graph / of every graph
+                        m = rng.choice([4, 4, 4, 5, 0, 1, 2])
+                        pt = [None if m & 1 else t[0], None if m & 2 else t[1], None if m & 4 else t[2]]
+                        ops.append(["remove", first_g, via] + pt if rng.random() < 0.8 else ["st_remove", None, via] + pt)
+                    else:                    # put something back under an old or a new key
+                        t2 = list(t) if rng.random() < 0.5 else [t[0], rng.choice(ids), rng.choice(ids)]
+                        ops.append(["add", first_g if rng.random() < 0.7 else g, via] + t2)
+                elif writer and r < 0.6:
                     gb = rng.choice([x for x in G if x != ga])
                     t = pick() if rng.random() < 0.5 else tr()
                     w_ = rng.random()
@@ -344,6 +369,14 @@ def _obs_plan(case, k):
         for t in pool[:3]:
             plan.append(("ctxs", None, list(t)))
         plan.append(("ctxs", None, [probe[0], None, probe[2]]))
+        # Graph.triples_choices: a list of 0..3 terms (repeats possible) in one rotating position, the two others
+        # bound / wild-carded in turn
+        si = k % 3
+        cs = [pool[(k + j) % len(pool)][si] for j in range((k // 3) % 4)]
+        others = [i for i in range(3) if i != si]
+        a = probe[others[0]] if k % 2 else None
+        b = probe[others[1]] if (k // 2) % 2 else None
+        plan.append(("tch", k % 3, (si, cs, a, b)))
     return plan
 
 
@@ -413,6 +446,9 @@ def _obs_lines(case, k):
             out.append(f"mtri {_w(g)} " + " ".join(_w(v) for v in x))
         elif kind == "ctxs":
             out.append("ctxs " + " ".join(_w(v) for v in x))
+        elif kind == "tch":
+            si, cs, a, b = x
+            out.append(f"tch {g} {'spo'[si]} {_w(a)} {_w(b)} " + " ".join(map(str, cs)))
         else:
             out.append(f"{pre}{kind} {g} " + " ".join(_w(v) for v in x))
     return out
@@ -664,6 +700,22 @@ def _observe(w, case, k, obs, viol):
         go = w.objs[g][(k + g) % 2]
         S = w.sets[g]
         try:
+            if kind == "tch":
+                si, cs, a, b = x
+                others = [i for i in range(3) if i != si]
+                arg = [None, None, None]
+                arg[si] = [TERMS[c] for c in cs]
+                arg[others[0]], arg[others[1]] = _term(a), _term(b)
+                got = [_ids(t) for t in go.triples_choices(tuple(arg))]
+                obs.append(_fmt(got))
+                base = [t for t in S if (a is None or t[others[0]] == a) and (b is None or t[others[1]] == b)]
+                # the statement's reading: the matching triples whose term in the list's position is one of the
+                # choices (empty list = wildcard); a choice given twice is asked for twice
+                want = sorted(base) if not cs else sorted(t for c in cs for t in base if t[si] == c)
+                if sorted(got) != want:
+                    viol.append(f"choices: after op {k} graph {g} triples_choices(slot {'spo'[si]}, {cs}, others {a},{b}) "
+                                f"gave {sorted(got)} expected {want}")
+                continue
             if kind == "len":
                 n = len(go)
                 obs.append(str(n))
@@ -692,22 +744,41 @@ def _observe(w, case, k, obs, viol):
             viol.append(f"raise: observation {kind} {x} on graph {g} after op {k} raised {type(e).__name__}: {e}")
 
 
-def _iter_admissible(lines):
+def _iter_admissible(lines, expect):
     """ask the compiled model whether every triple the real generators yielded is a possible yield of the
-    iterator machine (matches the pattern and passes the has-context test at that moment / is in the snapshot)"""
+    iterator machine (matches the pattern and passes the has-context test at that moment / is in the snapshot).
+    The same replay drives the CONCRETE generator machine (`NGen`: level-by-level key copies, insertion-ordered
+    dictionaries) with one `gnext` per real next(); `expect[i]` is what the real generator did at line i.  Agreement
+    is counted (stats gen_exact / gen_diverge) but a disagreement is not an alarm: the statement allows any sound
+    iteration discipline and order, only a RAISE predicted by the machine (`error`) is reported.
+    returns (observation, exact, diverge)"""
     exe = core.driver_path(sys.modules[__name__])
     try:
         p = subprocess.run([exe], input="\n".join(lines) + "\n", stdout=subprocess.PIPE, stderr=subprocess.PIPE,
                            text=True, timeout=60, cwd=core.LEAN)
     except Exception as e:  # noqa: BLE001
-        return "iter-adm:no-driver " + type(e).__name__
+        return "iter-adm:no-driver " + type(e).__name__, 0, 0
     out = p.stdout.split("\n")
-    for ln, o in zip(lines, out):
+    exact = diverge = 0
+    snapshot = set()   # generators over the all-unbound shape: a copy of a Python SET is walked, its order is hash order
+    for i, (ln, o) in enumerate(zip(lines, out)):
         if ln.startswith("iyield") and o != "adm":
-            return "iter-adm:" + o + " " + ln
+            return "iter-adm:" + o + " " + ln, exact, diverge
         if o in ("bad-op", "error"):
-            return "iter-adm:" + o + " " + ln
-    return "iter-adm:ok"
+            return "iter-adm:" + o + " " + ln, exact, diverge
+        if ln.startswith("gopen") and ln.split()[3:6] == ["*", "*", "*"]:
+            snapshot.add(ln.split()[1])
+        if ln.startswith("gnext"):
+            if ln.split()[1] in snapshot:   # compare only yield-vs-stop (the number of yields = size of the start copy)
+                if (o == "stop") == (expect.get(i) == "stop"):
+                    exact += 1
+                else:
+                    diverge += 1
+            elif o == expect.get(i):
+                exact += 1
+            else:
+                diverge += 1
+    return "iter-adm:ok", exact, diverge
 
 
 def run_impl(case):
@@ -715,6 +786,7 @@ def run_impl(case):
     obs, viol, stats = [], [], {"ops": len(case["ops"]), "store_" + case["store"]: 1}
     gens = {}      # k -> [generator, g, pattern, history of graph g's content since the generator began | None]
     adm_lines = ["reset"]
+    adm_expect = {}   # index of a `gnext` line -> what the real generator did ("s,p,o" | "stop" | "raise")
     shared = False
     for k, op in enumerate(case["ops"]):
         kind = op[0]
@@ -731,15 +803,20 @@ def run_impl(case):
                 if hist is None:
                     ent[3] = hist = [set(w.sets[g])]
                     adm_lines.append(f"iopen {op[1]} {g} " + " ".join(_w(x) for x in pt))
+                    adm_lines.append(f"gopen {op[1]} {g} " + " ".join(_w(x) for x in pt))
                 for _ in range(op[2]):
+                    adm_lines.append(f"gnext {op[1]}")   # the concrete generator machine makes the same next()
                     try:
                         t = _ids(next(gen))
                     except StopIteration:
+                        adm_expect[len(adm_lines) - 1] = "stop"
                         break
                     except Exception as e:  # noqa: BLE001
+                        adm_expect[len(adm_lines) - 1] = "raise"
                         line = "raise:" + type(e).__name__
                         viol.append(f"iter-raise: next() of generator {op[1]} raised {type(e).__name__}: {e}")
                         break
+                    adm_expect[len(adm_lines) - 1] = f"{t[0]},{t[1]},{t[2]}"
                     stats["yields"] = stats.get("yields", 0) + 1
                     adm_lines.append(f"iyield {op[1]} {t[0]} {t[1]} {t[2]}")
                     if not _matches(pt, t):
@@ -763,9 +840,12 @@ def run_impl(case):
         if case["store"] == "mem" and not shared:
             shared = bool((w.sets[0] & w.sets[1]) | (w.sets[0] & w.sets[2]) | (w.sets[1] & w.sets[2]))
         _observe(w, case, k, obs, viol)
-    if any(l.startswith("iyield") for l in adm_lines):
-        obs.append(_iter_admissible(adm_lines))
+    if any(l.startswith("gnext") for l in adm_lines):
+        line, exact, diverge = _iter_admissible(adm_lines, adm_expect)
+        obs.append(line)
         stats["iter_cases"] = 1
+        stats["gen_exact"] = exact
+        stats["gen_diverge"] = diverge
     else:
         obs.append("iter-adm:ok")
     removed = stats.get("removed", 0) > 0
